@@ -86,7 +86,7 @@ def enabled(t):
         ops.append(("mask", kind, mask))
         ops.append(("index", kind, [n0 - 1, 0] if n0 > 1 else [0]))
     ops += [("join_w",), ("join_overlap",), ("joined_w",), ("or_self",), ("or_other",), ("or_wrongspace",), ("repeat", 2),
-            ("unsqueeze", 0), ("unsqueeze", 1), ("unsqueeze", -1),
+            ("unsqueeze", 0), ("unsqueeze", 1), ("unsqueeze", -1), ("unsqueeze", -2), ("unsqueeze", -3),
             ("set_rows", ("s", None, 1, None)), ("set_name", names[0]), ("set_name", names[-1]),
             ("arith", "+"), ("arith", "-"), ("arith", "*"), ("arith", "/"), ("arith_wrongspace",), ("coords_names",)]
     return ops
@@ -160,6 +160,8 @@ def apply_model(t, op):
             raise Reject("dim out of range")
         if dim < 0:
             dim = t.data.ndim + dim          # new axis goes before the last batch axis' successor, never after the columns
+            if dim < 0:
+                raise Reject("dim out of range")
         return Table(t.space, np.expand_dims(t.data, dim)), None
     if k == "set_rows":
         d = t.data.copy()
